@@ -39,6 +39,8 @@ def main():
     ap.add_argument("--dir", default=os.path.join(VERIF, "selftest", "patches"))
     ap.add_argument("--map", default="")
     args = ap.parse_args()
+    args.dir = os.path.abspath(args.dir)
+    args.out = os.path.abspath(args.out)
     mapping = dict(MAP)
     if args.map:
         mapping.update(json.load(open(args.map)))
